@@ -299,7 +299,8 @@ def hostile_names(b, v, tier):
         rep = {"flags": fl, "exit": p.returncode, "stderr": se[-1500:]}
         ok = p.returncode == 0 and not crash_signature(p.returncode, se)
         whole, rest = sl.out_lines(p.stdout)
-        if ok and (rest or len(whole) != len(lines) or any(not sl.is_object_line(w.decode("utf-8", "replace")) for w in whole)):
+        # (C07 asks for *at most* one well-formed line per input line; that every object line yields exactly one is C06's business)
+        if ok and (rest or len(whole) > len(lines) or any(not sl.is_object_line(w.decode("utf-8", "replace")) for w in whole)):
             ok = False
         if ok:
             continue
@@ -308,14 +309,14 @@ def hostile_names(b, v, tier):
         for ln in lines:
             p2 = common.run_cli(b, ["redact"] + fl, stdin_data=(ln + "\n").encode("utf-8"), cwd=wd)
             w2, r2 = sl.out_lines(p2.stdout)
-            if p2.returncode != 0 or r2 or len(w2) != 1 or not sl.is_object_line(w2[0].decode("utf-8", "replace")):
+            if p2.returncode != 0 or r2 or len(w2) > 1 or (w2 and not sl.is_object_line(w2[0].decode("utf-8", "replace"))):
                 culprit = (ln, p2)
                 break
         if culprit:
             ln, p2 = culprit
             se2 = p2.stderr.decode("utf-8", "replace")
             v.violation("a line with an unusual field / index-key / namespace name %s flags=%s" % (
-                "crashes the run" if crash_signature(p2.returncode, se2) else "does not yield exactly one well-formed line", " ".join(fl)),
+                "crashes the run" if crash_signature(p2.returncode, se2) else "stops the run or yields output that is not one well-formed line", " ".join(fl)),
                 dict(rep, line=ln[:3000], exit_alone=p2.returncode, stderr_alone=se2[-800:], output_alone=p2.stdout.decode("utf-8", "replace")[:1500]))
         else:
             v.violation("a log with unusual names fails as a whole but every line passes alone flags=%s" % " ".join(fl), rep)
